@@ -1206,8 +1206,15 @@ def _run_scenario(doc, dom, budget, root, base, res, seeds_fn) -> None:
                         f"a result that is not the run's: {str(r)[:300]}")
                     return
             continue
-        # the file may have been incomplete when this evaluate ran (e.g.
-        # completed by the peer later): raising is acceptable then
+        # the file was complete when this evaluation ran: both parsers must
+        # return a result for it
+        if "single_raised" in r or "packing_raised" in r:
+            core.violation(
+                res, "parse-back-raised-on-complete-log",
+                f"{rel} is a complete log but "
+                f"{'from_single_log' if 'single_raised' in r else 'Packing.from_log'}"
+                f" raised {r.get('single_raised') or r.get('packing_raised')}")
+            return
         if not returned:
             continue
         rec = logs[rel][0]
